@@ -11,13 +11,15 @@
    HISTORY LEVEL.  The structural pool invariant [SInv] (Pool/LegacyInv.v) =
      pending_queue_disjoint (by nonce, hence by tx), all_is_union (lookup = pending ∪ queue as
      sets, lookup duplicate-free) with the slot counter exact, per-list well-formedness
-     (nonce-sorted, totalcost = sum of costs, cap bounds, strict flag, every tx under its
-     sender, senders in the account universe), and "no Go panic so far".
+     (nonce-sorted, totalcost = sum of costs, cap bounds, strict flag, the sorted cache nil or
+     equal to the items, every tx under its sender, senders in the account universe), and
+     "no Go panic so far".
    FULL, one preservation theorem per pool-level operation, for every state satisfying SInv:
      removeTx, add (incl. underpriced eviction and both replacement paths), addTxsLocked,
      promoteExecutables, truncatePending, truncateQueue, the promote maintenance cycle,
-     Add(txs, sync) and SetGasTip; and by induction C41_structural_inv_histories_partial:
-     SInv after every history of Add / SetGasTip operations, under the guards stated in the
+     Add(txs, sync), SetGasTip and the listing calls Content / ContentFrom / Pending; and by
+     induction C41_structural_inv_histories_partial: SInv after every history of Add / SetGasTip /
+     Content / ContentFrom / Pending operations, under the guards stated in the
      theorem (senders in the universe, cost < 2^191, nonce < 2^64).
    PARTIAL — what is missing from the full statement
        forall h, hist_ok h -> pool_inv_b (run_history (pool_init c tip g) h) = true :
@@ -112,6 +114,35 @@ Print Assumptions C41_promote_appends.
 Theorem C41_gapless_checker_sound : forall l s, seq_from s l = true <-> contig s l.
 Proof. exact seq_from_contig. Qed.
 Print Assumptions C41_gapless_checker_sound.
+
+(* ---------- the sorted cache of SortedMap (what Content / ContentFrom / Pending hand out) ---------- *)
+(* for EVERY history of list operations with arbitrary arguments (Add = Put, Forward, Filter, Cap,
+   Remove, Ready, Flatten), starting from a new list: the cache is nil or equals the nonce-sorted
+   items - a mutator that forgets to invalidate it breaks this proof - and Flatten returns the items *)
+Theorem C41_cache_valid_all_list_histories : forall h s,
+  let l := fold_left lstep h (new_list s) in
+  sorted (l_txs l) /\ (l_cache l = None \/ l_cache l = Some (l_txs l)).
+Proof. exact lhistory_sc_ok. Qed.
+Print Assumptions C41_cache_valid_all_list_histories.
+Theorem C41_flatten_is_items_all_list_histories : forall h s,
+  fst (list_flatten (fold_left lstep h (new_list s))) = l_txs (fold_left lstep h (new_list s)).
+Proof. exact lhistory_flatten. Qed.
+Print Assumptions C41_flatten_is_items_all_list_histories.
+Theorem C41_list_flatten_wf : forall l c l', lwf l -> list_flatten l = (c, l') ->
+  c = l_txs l /\ lwf l' /\ l_txs l' = l_txs l /\ l_total l' = l_total l /\ l_strict l' = l_strict l /\
+  l_cache l' = Some (l_txs l).
+Proof. exact list_flatten_spec. Qed.
+Print Assumptions C41_list_flatten_wf.
+(* at pool level (lwf, hence cache validity, is part of SInv): the public listings are the index *)
+Theorem C41_listing_is_index : forall a st, SInv st ->
+  fst (flatten_pending a st) = match p_pending st a with Some l => l_txs l | None => [] end /\
+  fst (flatten_queue a st) = match p_queue st a with Some l => l_txs l | None => [] end /\
+  SInv (snd (pool_ContentFrom a st)) /\ SInv (snd (pool_Content st)) /\ SInv (snd (pool_Pending st)).
+Proof.
+  intros a st H. split; [apply (flatten_pending_RS a st H)|]. split; [apply (flatten_queue_RS a st H)|].
+  split; [apply (pool_ContentFrom_RS a st H)|]. split; [apply (pool_Content_RS st H) | apply (pool_Pending_RS st H)].
+Qed.
+Print Assumptions C41_listing_is_index.
 
 (* ---------- structural invariant: one preservation theorem per operation ---------- *)
 Theorem C41_removeTx_preserves : forall k t oob st, SInv st ->
@@ -214,4 +245,4 @@ Example C41_nonvacuous :
                OpReset chain1 g0 b1; OpSetGasTip 2] in
   pool_inv_b st = true /\ limits_b st = true /\ lwf (new_list true) /\
   length (p_all st) = 3%nat /\ queue_count st = 1%nat.
-Proof. vm_compute. repeat split; constructor. Qed.
+Proof. split; [vm_compute; reflexivity|]. split; [vm_compute; reflexivity|]. split; [apply lwf_new|]. vm_compute. split; reflexivity. Qed.
